@@ -40,7 +40,11 @@ pub fn check_error_message(text: &str, msg: &str, description: Option<&str>) -> 
         }
         let src = src_lines[n - 1];
         let src_stripped = src.strip_suffix('\r').unwrap_or(src);
-        if quoted_text != src_stripped && quoted_text != src {
+        // a `\r` directly before `\n` belongs to the line terminator and must not be quoted;
+        // a lone `\r` at the very end of the file (no `\n` after it) may or may not be
+        let is_last_segment = n == n_src;
+        let ok = quoted_text == src_stripped || (is_last_segment && quoted_text == src);
+        if !ok {
             return Err(format!("line {n} is quoted as `{quoted_text}` but the source line is `{src_stripped}`"));
         }
         if let Some(last) = quoted.last() {
